@@ -271,7 +271,20 @@ func findMissingRules(c *Ctx) {
 				}
 			}
 			findBreak(loop.Body.List)
-			R.Check(len(takes) == 1 && len(keeps) == 1 && takes[0] == keeps[0] && whole, "R10c", c.Cfg+"findMissingCasBlobsInternal:slices", c.P.Pos(loop.Pos()),
+			// with a constant bound the short tail needs its own branch (rest taken whole, remainder
+			// cleared); a computed bound (n := min(len(rest), batch)) covers the tail itself
+			boundIsVar := false
+			if len(takes) == 1 {
+				ast.Inspect(loop.Body, func(m ast.Node) bool {
+					if se, ok := m.(*ast.SliceExpr); ok && se.High != nil && exprStr(se.High) == takes[0] {
+						if o, isVar := identObj(info, se.High).(*types.Var); isVar && o.Parent() != o.Pkg().Scope() {
+							boundIsVar = true
+						}
+					}
+					return true
+				})
+			}
+			R.Check(len(takes) == 1 && len(keeps) == 1 && takes[0] == keeps[0] && (whole || boundIsVar), "R10c", c.Cfg+"findMissingCasBlobsInternal:slices", c.P.Pos(loop.Pos()),
 				"the batch taken (rest[:b]) and the remainder kept (rest[b:]) use the same bound, or the whole rest is taken and the remainder cleared (no digest skipped or processed twice)",
 				fmt.Sprintf("batch bounds %v, remainder bounds %v, whole-rest branch %v", takes, keeps, whole))
 			R.Check(early == "", "R10c", c.Cfg+"findMissingCasBlobsInternal:no-early-exit", c.P.Pos(loop.Pos()), "the batching loop is left only when the list is exhausted or with an error",
